@@ -170,7 +170,7 @@ func (c *Ctx) checkDoubleChecked(rule string, eng *lockEngine) {
 			}
 		})
 	}
-	c.floor(rule, n, 7)
+	c.floor(rule, n, 5)
 }
 
 func checkC09(c *Ctx) {
@@ -188,11 +188,11 @@ func checkC09(c *Ctx) {
 		c.checkExclusiveGetOrCreate("O1 exclusive-section", fn, fm)
 	}
 	pkgs := []string{"", "internal/cache", "prometheus", "m3"}
-	c.checkFieldDiscipline("O2 field-discipline", pkgs, eng)
+	c.checkFieldDiscipline("O2 field-discipline", pkgs, eng, 40)
 	for _, f := range [][3]string{{"", "scope", "closed"}, {"", "counter", "curr"}, {"", "counter", "prev"}, {"", "gauge", "curr"}, {"", "gauge", "updated"}, {"m3/thriftudp", "TUDPTransport", "closed"}} {
 		c.checkAtomicOnly("O2 atomic-only", f[0], f[1], f[2])
 	}
-	c.checkLockPairing("O3 lock-pairing", pkgs, eng)
+	c.checkLockPairing("O3 lock-pairing", pkgs, eng, 15)
 	c.checkLockOrder("O3 lock-order", pkgs, eng)
 	_ = token.NoPos
 }
